@@ -24,18 +24,23 @@ import numpy as np
 import sympy as sp
 import uneval_ir as U
 
+# the last two have chains with a parity prefactor != 1 (their components carry an explicit -1 factor)
 MODELS_QUICK = [("jpsi_pipi_2body_hel", "bw_ff", None), ("etac_ll_can", "analytic", None),
-                ("jpsi_gpipi_hel", "bw_ff", "dpd")]
+                ("jpsi_gpipi_hel", "bw_ff", "dpd"), ("jpsi_3pi_hel", "none", None), ("jpsi_ksp1750_hel", "none", None)]
 MODELS_MORE = [("jpsi_gpipi_can", "analytic", "axisangle"), ("jpsi_3pi_hel", "bw_ff", "dpd"),
-               ("d0_kkk_hel", "analytic", "dpd"), ("jpsi_ppbar_hel", "none", None), ("lc_pkpi_can", "bw_ff", "dpd"),
+               ("d0_kkk_hel", "analytic", "dpd"), ("jpsi_ppbar_hel", "none", None), ("lc_pkpi_can", "bw_ff", "dpd"), ("lc_pkpi_hel", "none", None),
                ("jpsi_ksp_can", "bw_ff", "axisangle"), ("psi2s_jpsipipi_hel", "analytic", None),
                ("jpsi_gpipi_f2_hel", "bw_ff", None), ("d0_k3pi_hel", "bw_ff", None)]
 
 
 def describe(x):
     """Everything that must survive: srepr (structure + assumptions) and the non-SymPy attributes of every node."""
+    from ampform.sympy import UnevaluatedExpression
+
     at = []
     for n in sp.preorder_traversal(x):
+        if isinstance(n, UnevaluatedExpression):
+            at.append(f"{type(n).__name__}._name={getattr(n, '_name', '<<missing>>')!r}")
         if U.is_decorated(type(n)):
             for f in U.attr_fields(type(n)):
                 v = getattr(n, f.name, "<<missing>>")
@@ -269,7 +274,7 @@ def main():
         print(json.dumps({"still_fails": fail is not None, "what": fail[1] if fail else ""}))
         return
     seed, n = int(sys.argv[1]), int(sys.argv[2])
-    g = G.Gen(seed * 15485863 + 3, helpers=True)
+    g = G.Gen(seed * 15485863 + 3, helpers=True, picklable=True)
     cases = []
     bz = ("U", "ampform.kinematics.lorentz.BoostZMatrix",
           (("Y", "Symbol('b')"), ("U", "ampform.kinematics.lorentz.ArraySize", (("Y", "Symbol('p0')"),), ())), ())
